@@ -17,11 +17,22 @@
     - [C18_earliest], [C18_not_past]: the firing time is the earliest pending
       expiry, and no event of any returned trace is later than a timer still
       pending after it.
-    PARTIAL in the same sense as C17 (contracts of every step of every run;
-    the trace-level sentence is decided by the monitor on generated runs). *)
+    - [C18_trace]: the property at the level of whole runs. For every run on
+      a parsed trace that records all events, the returned trace is the event
+      column of a history H (each processed event with the actions returned for
+      it) such that every TimerBegin for machine m follows an UpdateTimer for m
+      returned on that side at that same instant, and every TimerEnd for m is
+      reported exactly at issue time + duration of an earlier UpdateTimer for m
+      on that side, every later timer action for m before it (an UpdateTimer or
+      a Cancel of the internal timer) having been issued no earlier than that
+      expiry, or being a non-replacing update that did not reach beyond it
+      (never for a cancelled or superseded timer).
+    The converse (an update that sets the timer queues a TimerBegin at that
+    instant, and the expiry fires before time passes it) is [C18_begins] with
+    [C18_not_past]. *)
 From MB Require Import Model.Framework Model.Sim.
 From MB Require Import Proofs.SimReach.
-From MB Require Proofs.SimBlocking Proofs.SimTimers Proofs.SimTrace.
+From MB Require Proofs.SimBlocking Proofs.SimTimers Proofs.SimTrace Proofs.SimHistory Proofs.SimTimerTrace.
 Import ListNotations SimTimers.
 Open Scope N_scope.
 
@@ -81,3 +92,32 @@ Theorem C18_not_past : forall cc sc tp fuel sq delay pps args out,
     forall t, In t (pending st1) -> (nowt <= t)%Z -> (se_time e <= t)%Z.
 Proof. exact SimTrace.not_past_trace. Qed.
 Print Assumptions C18_not_past.
+
+Theorem C18_trace : forall fuel cc sc tp tr delay pps args out,
+  SimHistory.full_args args ->
+  sim_advanced fuel cc sc tp (parse_trace tr delay) delay pps args = Ok out ->
+  exists H : list SimHistory.hrec, out = map SimHistory.h_ev H /\
+    (forall k rk m, nth_error H k = Some rk -> se_ev (SimHistory.h_ev rk) = TETimerBegin m ->
+       exists j rj dur rp, (j < k)%nat /\ nth_error H j = Some rj /\
+         se_client (SimHistory.h_ev rj) = se_client (SimHistory.h_ev rk) /\
+         In (TUpdateTimer m dur rp) (SimHistory.h_acts rj) /\
+         se_time (SimHistory.h_ev rj) = se_time (SimHistory.h_ev rk)) /\
+    (forall k rk m, nth_error H k = Some rk -> se_ev (SimHistory.h_ev rk) = TETimerEnd m ->
+       exists j rj dur rp, (j < k)%nat /\ nth_error H j = Some rj /\
+         se_client (SimHistory.h_ev rj) = se_client (SimHistory.h_ev rk) /\
+         In (TUpdateTimer m dur rp) (SimHistory.h_acts rj) /\
+         se_time (SimHistory.h_ev rk) = (se_time (SimHistory.h_ev rj) + Z.of_N dur)%Z /\
+         (forall j' rj' a', (j < j' < k)%nat -> nth_error H j' = Some rj' ->
+            se_client (SimHistory.h_ev rj') = se_client (SimHistory.h_ev rk) ->
+            In a' (SimHistory.h_acts rj') -> SimTimerTrace.is_timer_for m a' = true ->
+            (se_time (SimHistory.h_ev rk) <= se_time (SimHistory.h_ev rj'))%Z \/
+            (exists d', a' = TUpdateTimer m d' false /\
+                        (se_time (SimHistory.h_ev rj') + Z.of_N d' <= se_time (SimHistory.h_ev rk))%Z))).
+Proof.
+  intros fuel cc sc tp tr delay pps args out Hf Hrun.
+  destruct (SimHistory.sim_advanced_history _ _ _ _ _ _ _ _ _ Hf Hrun) as (st0 & t0 & H & Hi & Hl & ->).
+  exists H. split; [reflexivity|]. split.
+  - exact (SimTimerTrace.timer_begin_sound_parsed fuel cc sc tp args st0 t0 H tr delay delay pps Hi Hl).
+  - exact (SimTimerTrace.timer_end_sound_parsed fuel cc sc tp args st0 t0 H tr delay delay pps Hi Hl).
+Qed.
+Print Assumptions C18_trace.
